@@ -123,7 +123,7 @@ def run_scenarios(binary, scn_path, out_path, nscn, timeout=900):
 _runseq = 0
 
 
-def tlc(module, cfg, env=None, workers="1", timeout=900, extra=(), depthfirst=False, heap=None):
+def tlc(module, cfg, env=None, workers="1", timeout=900, extra=(), depthfirst=False, heap=None, stop_after=0):
     """Runs TLC in a scratch copy of the spec directory; returns (stdout, stats)."""
     global _runseq
     _runseq += 1
@@ -137,7 +137,8 @@ def tlc(module, cfg, env=None, workers="1", timeout=900, extra=(), depthfirst=Fa
     if depthfirst:
         e["JAVA_TOOL_OPTIONS"] = (e.get("JAVA_TOOL_OPTIONS", "") + " -Dtlc2.tool.queue.IStateQueue=StateDeque").strip()
     jar = "/opt/veriftools/tla/tla2tools.jar:/opt/veriftools/tla/CommunityModules-deps.jar"
-    cmd = ["java", "-XX:+UseParallelGC"] + ([heap] if heap else []) + ["-cp", jar, "tlc2.TLC", "-workers", str(workers),
+    # stop_after: TLC ends the breadth-first search gracefully after that many seconds and reports what it has explored
+    cmd = ["java", "-XX:+UseParallelGC"] + ([heap] if heap else []) + (["-Dtlc2.TLC.stopAfter=%d" % stop_after] if stop_after else []) + ["-cp", jar, "tlc2.TLC", "-workers", str(workers),
            "-metadir", os.path.join(run, "meta"), "-config", cfg] + list(extra) + [module]
     try:
         r = subprocess.run(cmd, cwd=run, env=e, capture_output=True, text=True, timeout=timeout)
@@ -152,6 +153,9 @@ def tlc(module, cfg, env=None, workers="1", timeout=900, extra=(), depthfirst=Fa
     m = re.search(r"depth of the complete state graph search is (\d+)", out)
     if m:
         stats["depth"] = int(m.group(1))
+    m = re.search(r"(\d+) states left on queue", out)
+    if m:
+        stats["left_on_queue"] = int(m.group(1))
     stats["ok"] = "Model checking completed. No error has been found." in out
     stats["rc"] = r.returncode
     shutil.rmtree(run, ignore_errors=True)
